@@ -21,7 +21,7 @@ from qrv import build
 LEVEL = "exploration"
 RULE = ("exhaustive box size 1..16 x start {0,1,2,5,-3,17} x length 0..40 (thorough: size<=24, length<=80) "
         "for _calculate_ranges and the list/array variants and the public iterators under a simulated "
-        "rank schedule; random Redfield systems (1-6 baths) reduced over P=1..8 simulated ranks. "
+        "rank schedule, followed by random call histories on one configuration object (repeated lengths at different starts); random Redfield systems (1-6 baths) reduced over P=1..8 simulated ranks. "
         "distinct = (helper, size, start, length) resp. (caller, P, N, rounded parameters); non-trivial iff "
         "length > 0 and size > 1 (so that at least two ranks compete for the range).")
 ASSUMPTIONS = ["ranks are deterministic and independent between collective calls, so running them sequentially "
@@ -39,9 +39,9 @@ def gen_cases(tier, rng):
     cases = []
     smax, lmax = (16, 40) if tier == "quick" else (24, 80)
     for size in range(1, smax + 1):
-        cases.append({"cls": "helpers", "size": size, "lmax": lmax, "cost": 1.0})
+        cases.append({"cls": "helpers", "size": size, "lmax": lmax, "cost": 1.0, "seed": int(rng.integers(1 << 30)), "nhist": 120 if tier == "quick" else 600})
     for size in range(1, smax + 1, 1 if tier == "thorough" else 2):
-        cases.append({"cls": "public-iterators", "size": size, "lmax": min(lmax, 24), "cost": 1.0})
+        cases.append({"cls": "public-iterators", "size": size, "lmax": min(lmax, 24), "cost": 1.0, "seed": int(rng.integers(1 << 30)), "nhist": 60 if tier == "quick" else 300})
     n = 10 if tier == "quick" else 40
     for i in range(n):
         N = int(rng.integers(1, 7 if tier == "thorough" else 6))
@@ -212,6 +212,24 @@ def run_case(case, ctx):
                     check_partition(ctx, ba, 0, ln, "array", {"helper": "_calculate_ranges_array", "size": size, "len": ln})
                     ctx.require("variants-agree", bl == blocks and ba == blocks,
                                 {"size": size, "len": ln, "range": blocks, "list": bl, "array": ba})
+        # histories on ONE configuration object per rank (as the Manager's configuration is in real use): the blocks of a call
+        # are a function of (size, rank, start, stop) only, whatever ranges were distributed before
+        rng = numpy.random.default_rng(case.get("seed", size))
+        cfgs = [Cfg(size, r) for r in range(size)]
+        lens = [int(x) for x in rng.integers(0, case["lmax"] + 1, size=4)] + [size, size + 1, 2 * size - 1]
+        for k in range(case.get("nhist", 120)):
+            ln = int(lens[int(rng.integers(len(lens)))])
+            start = int(rng.integers(-20, 60))
+            stop = start + ln
+            blocks = []
+            with ctx.lib("_calculate_ranges (history)"):
+                for r in range(size):
+                    b = par._calculate_ranges(cfgs[r], start, stop)
+                    blocks.append((int(b[0]), int(b[1])))
+            check_partition(ctx, blocks, start, stop, "_calculate_ranges",
+                            {"helper": "_calculate_ranges", "size": size, "start": start, "stop": stop, "history_step": k, "same_configuration_object": True})
+            ctx.sub(("ranges-history", size, start, ln), nontrivial=(ln > 0 and size > 1))
+        ctx.event("history_calls", case.get("nhist", 120))
         ctx.nontrivial(size > 1)
         ctx.key(("helpers", size))
         return
@@ -272,6 +290,28 @@ def run_case(case, ctx):
                                          "per_rank_counts": [len(x) for x in ga]},
                                         mechanism="partition")
                             ctx.sub(("public-list/array", size, ri, ln), nontrivial=(ln > 0 and size > 1))
+            # histories: the Manager's configuration object is the same for every call of a program
+            rng = numpy.random.default_rng(case.get("seed", size) + 7)
+            lens = [int(x) for x in rng.integers(0, case["lmax"] + 1, size=4)] + [size, size + 1, 2 * size - 1]
+            for k in range(case.get("nhist", 60)):
+                ln = int(lens[int(rng.integers(len(lens)))])
+                start = int(rng.integers(-20, 60))
+                stop = start + ln
+                got = []
+                for r in range(size):
+                    sim.set_rank(size, r)
+                    with ctx.lib("block_distributed_range (history)"):
+                        par.start_parallel_region()
+                        it = list(qr.block_distributed_range(start, stop))
+                        par.close_parallel_region()
+                    got.append(it)
+                flat = [x for it in got for x in it]
+                sizes = [len(it) for it in got]
+                ctx.require("partition", flat == list(range(start, stop)) and (max(sizes) - min(sizes) <= 1),
+                            {"helper": "block_distributed_range", "size": size, "start": start, "stop": stop, "history_step": k,
+                             "handed_out": got if len(flat) < 60 else sizes}, mechanism="partition")
+                ctx.sub(("public-range-history", size, start, ln), nontrivial=(ln > 0 and size > 1))
+            ctx.event("history_calls", case.get("nhist", 60))
         finally:
             sim.close()
         ctx.nontrivial(size > 1)
